@@ -743,6 +743,9 @@ func (r *Relay) disconnected(n network.Network, c network.Conn) {
 	_, ok := r.rsvp[p]
 	if ok {
 		delete(r.rsvp, p)
+		// The peer may still be known to the connection manager (it can have a limited connection
+		// left); the reservation is gone, so is its tag.
+		r.host.ConnManager().UntagPeer(p, "relay-reservation")
 	}
 	r.constraints.cleanupPeer(p)
 	r.mx.Unlock()
